@@ -19,7 +19,7 @@ RULE = ("each case: format in {SDMF, MDMF}, k<=3, N<=5, the mutable segment size
 LEVEL_TEXT = "Random histories against a byte-string reference model, compared after every step, with boundary-directed generation."
 ASSUMPTIONS = ["one writer; servers are honest, except that a 'flaky-writes' step makes chosen servers fail or not acknowledge their next write calls during the following operation (that operation may then fail; if it reports success the model applies)", "each update uses a freshly obtained best version (as the web API and SFTP front ends do)",
                "update with offset > size is not generated (the code asserts offset <= size)", "ranged reads lie inside the file (Retrieve.download asserts it; the web front end clips ranges before calling)"]
-REQUIRED_CLASSES = ["threads-async", "verified-by-second-client", "update-ok-under-flaky-writes", "mdmf", "sdmf", "update-cross-boundary", "update-ends-on-boundary", "update-grows-segments", "update-append", "modify", "reopen", "multi-segment", "overwrite-shrink"]
+REQUIRED_CLASSES = ["update-of-empty-file", "update-append-at-segment-boundary", "threads-async", "verified-by-second-client", "update-ok-under-flaky-writes", "mdmf", "sdmf", "update-cross-boundary", "update-ends-on-boundary", "update-grows-segments", "update-append", "modify", "reopen", "multi-segment", "overwrite-shrink"]
 BUDGET = {"quick": 900, "thorough": 7200}
 # classes of operations that fail today without damaging the file (outside the statement: it speaks about successful operations); counted in the evidence
 TOLERATED_FAILURES = "update at EOF of an MDMF file whose size is a multiple of the segment size; update of an empty file"
@@ -155,7 +155,11 @@ def run_case(case, ctx):
                     return
                 r = g.run(rv[1].update(mutfile.mdata(new), off))
                 segeff = -(-seg // k) * k   # MDMF rounds the segment size up to a multiple of k
-                core = size > 0 and not (fmt == "mdmf" and off == size and size % segeff == 0)
+                core = True     # (until fix D43 the update of an empty file and an MDMF append exactly at a segment boundary raised; they are ordinary inputs)
+                if size == 0:
+                    classes.add("update-of-empty-file")
+                elif fmt == "mdmf" and off == size and size % segeff == 0:
+                    classes.add("update-append-at-segment-boundary")
                 if r[0] == "ok":
                     model[off:off + ln] = new
                     end = off + ln
